@@ -48,7 +48,7 @@ type c20Case struct {
 	Ops    []c20Op `json:"ops"`
 }
 
-var c20Labels = []string{"A", "B", "stateA", "cal 1", "Fe55, 5.9keV", "x", "#not-a-comment", "STOP", "START", "PAUSE", " lead", "trail ", "ü-umlaut", "1234567890", "a,b", "tab\there"}
+var c20Labels = []string{"A", "B", "stateA", "cal 1", "Fe55, 5.9keV", "x", "#not-a-comment", "STOP", "START", "PAUSE", " lead", "trail ", "ü-umlaut", "1234567890", "a,b", "tab\there", "FE55_50%", "100%% sure", "%s %d %v", "%!"}
 
 func c20GenExt(t *rapid.T) []int64 {
 	n := 0
